@@ -131,7 +131,7 @@ var readOnlyExt = []string{
 	"github.com/multiformats/go-multihash.", "(crypto.Hash).", "crypto/ecdsa.Verify", "crypto/ed25519.Verify",
 	"(*math/big.Int).SetBytes", "math/big.NewInt", "invoke.Write", "invoke.Sum", "reflect.TypeOf", "unicode/utf8.", "unicode/utf16.", "bytes.",
 	"(*github.com/go-jose/go-jose/v3.JSONWebKey).UnmarshalJSON", "github.com/go-jose/go-jose/v3/json.Unmarshal:0", "encoding/json.Unmarshal:0",
-	"(*net/http.Client).Do", "invoke.AuthToken", "time.", "(time.Time).", "github.com/btcsuite/btcd/btcec/v2.", "crypto/elliptic.", "invoke.IsOnCurve", "invoke.Params", "math.", "(*strings.Builder).", "sort.Strings:fresh",
+	"slices.Contains", "slices.Index", "(*net/http.Client).Do", "invoke.AuthToken", "time.", "(time.Time).", "github.com/btcsuite/btcd/btcec/v2.", "crypto/elliptic.", "invoke.IsOnCurve", "invoke.Params", "math.", "(*strings.Builder).", "sort.Strings:fresh",
 }
 
 func (a *effect) report(in ssa.Instruction, what string) {
